@@ -96,12 +96,19 @@ func runC07(c *core.Ctx) {
 	// record what should reach each reader: evaluated at delivery time against the public remote list
 	d.S.Hold = nil
 	preKnown := map[*c07Side]map[string]bool{}
+	stale := map[*c07Side]netip.AddrPort{}
 	d.S.AfterDeliver = func(dg *simnet.Datagram, res simnet.DeliverResult, to *simnet.Sock) {
 		if res != simnet.Delivered || to == nil || stun.IsMessage(dg.Payload) {
 			return
 		}
 		for _, s := range sides {
 			if to.Host() != s.host || s.ag.Conn == nil {
+				continue
+			}
+			if stale[s] == dg.Src {
+				// an address that was a remote candidate only in a generation ended by Restart is unknown now,
+				// whatever the agent's own list says
+				c.Probe("data-from-remote-of-ended-generation")
 				continue
 			}
 			if preKnown[s]["udp/"+dg.Src.String()] {
@@ -188,6 +195,34 @@ func runC07(c *core.Ctx) {
 	}
 	// Restart: the data path must fail closed until a pair of the new generation is validated, and work again
 	c.Fault("restart-during-data")
+	lateAddr := map[*c07Side]netip.AddrPort{sa: netip.MustParseAddrPort("10.0.2.99:9999"), sb: netip.MustParseAddrPort("10.0.1.99:9999")}
+	if c.T.Bias(1, 2, "late-candidate") {
+		if k.disc > 0 && k.failed > 0 && c.T.Bias(1, 2, "fail-first") {
+			// the peers lose each other until both have failed ...
+			total := k.disc + k.failed + 2*k.checkInterval + 2*k.keepalive + time.Second
+			for el := time.Duration(0); el < total && !c.Failed(); el += k.checkInterval {
+				for _, dg := range d.W.InFlight() {
+					d.W.Drop(dg)
+				}
+				d.S.Advance(k.checkInterval)
+			}
+			if d.A.LastState() == ice.ConnectionStateFailed {
+				c.Probe("failed-before-restart")
+			}
+		}
+		// ... and a late trickled candidate arrives for the generation that is about to end
+		for _, s := range sides {
+			ap := lateAddr[s]
+			cand, err := ice.NewCandidateHost(&ice.CandidateHostConfig{Network: "udp", Address: ap.Addr().String(), Port: int(ap.Port()), Component: 1})
+			if err == nil {
+				_ = s.ag.A.AddRemoteCandidate(cand)
+				stale[s] = ap
+			}
+		}
+		d.S.Settle()
+		c.Fault("late-remote-candidate-before-restart")
+		refreshKnown()
+	}
 	for _, s := range sides {
 		uf, pw := rig.Creds(s.ag.Name, 1)
 		if err := s.ag.A.Restart(uf, pw); err != nil {
@@ -226,6 +261,25 @@ func runC07(c *core.Ctx) {
 		refreshKnown()
 		d.S.StepFair(k.checkInterval)
 		sess.hook("restarted")
+		if len(stale) > 0 && i%4 == 3 {
+			// data from the address that was a remote candidate of the ended generation only
+			for _, s := range sides {
+				if s.ag.Conn == nil {
+					continue
+				}
+				locals := s.ag.LocalCands()
+				if len(locals) == 0 {
+					continue
+				}
+				dst := rig.CandAP(locals[c.T.Choose(len(locals), "staledst")])
+				pl := []byte(fmt.Sprintf("\x40stale-%s-%d", s.ag.Name, i))
+				dg := d.W.Inject(stale[s], dst, pl, "data-from-ended-generation")
+				_, _ = d.S.Deliver(dg)
+				c.Fault("data-inject:remote-of-ended-generation")
+			}
+			d.S.Settle()
+			o.check()
+		}
 	}
 	if !c.Failed() {
 		o.final()
@@ -354,7 +408,7 @@ func (o *c07Oracle) payload() ([]byte, bool) {
 	c := o.c
 	o.seq++
 	size := []int{1, 2, 19, 20, 21, 100, 1200, 8192}[c.T.Choose(8, "size")]
-	kind := c.T.Pick([]int{5, 2, 1}, "paykind")
+	kind := c.T.Pick([]int{5, 2, 1, 1}, "paykind")
 	b := make([]byte, size)
 	tag := fmt.Sprintf("d%05d:", o.seq)
 	for i := range b {
@@ -374,6 +428,13 @@ func (o *c07Oracle) payload() ([]byte, bool) {
 	} else if kind == 2 {
 		b[0] = 0x00 // STUN-like first byte but no magic cookie
 		isStun = stun.IsMessage(b)
+	} else if kind == 3 && size >= 20 {
+		// not a STUN first byte (RTP, DTLS, ...), but the magic cookie sits where a STUN parser looks for it:
+		// the peer's classifier takes such a datagram for STUN, so the writer must refuse it as well
+		b[0] = []byte{0x80, 0x16, 0x44, 0x04, 0xff}[c.T.Choose(5, "firstbyte")]
+		b[4], b[5], b[6], b[7] = 0x21, 0x12, 0xa4, 0x42
+		isStun = stun.IsMessage(b)
+		o.c.Probe("payload-with-cookie-and-foreign-first-byte")
 	}
 	return b, isStun
 }
